@@ -19,6 +19,9 @@ pub fn gen(seed: u64, tier: Tier) -> ScenarioSpec {
     spec.knobs.insert("schedules".into(), if tier == Tier::Thorough { 12 } else { 6 });
     spec.knobs.insert("sched_seed".into(), (rng.next_u64() >> 1) as i64);
     spec.compression = *rng.pick(&[Compression::None, Compression::Lz4, Compression::Zstd]);
+    if rng.chance(1, 4) {
+        spec.knobs.insert("prelude".into(), 1);
+    }
     spec
 }
 
@@ -30,6 +33,7 @@ pub fn run(spec: &ScenarioSpec, ctx: &mut Ctx) -> Result<(), Violation> {
     let m = recorder::build(&spec.recorder);
     ctx.rep.sim_time_ns += m.sim_time_ns();
     shape_of_model(ctx, &m, spec);
+    prelude(spec.knob("prelude"), spec.seed, &m, ctx);
     let want = expected_hash(&m.bytes);
     let edges = m.edges();
     let n = spec.knob("schedules").max(1) as usize;
